@@ -201,6 +201,8 @@ class Size:
         return simp(Size(t, self._reg(o)))
 
     def __truediv__(self, o):
+        if type(o).__name__ == 'Arr':
+            return NotImplemented          # size / numerical value: the array's reflected operator gives a numerical value
         r = self.divide(o)
         if r is None:
             raise UnknownTruth(f'size division {self} / {o} is not exact')
